@@ -22,7 +22,10 @@ RULE = ("rounds of 2..16 client threads, each opening real TCP connections to on
         "APDU with thread id. Oracle: request intervals never overlap, every APDU lies in "
         "exactly one interval and all APDUs of an interval are contiguous; the device's in-flight "
         "counter never exceeds 1; each reply carries exactly the data of the APDUs of its own "
-        "request; every client gets exactly one reply. distinct = distinct service orders "
+        "request, and a blockchainState reply describes the device's state as it is when the "
+        "request is served (the simulated device's state moves with every advance / ancestor "
+        "update / reset exchange, some advances being refused by the device); every client "
+        "gets exactly one reply. distinct = distinct service orders "
         "(sequence of client ids as served) over rounds; non-trivial = rounds in which >= 2 "
         "requests were pending at the same time. Slow-request rounds make one blockchainState "
         "take 6.5 s (thorough: also 12, 32, 62, 125 s) while other clients queue, so that a "
@@ -37,11 +40,15 @@ ASSUMPTIONS = [
 FLOORS = {"quick": {"evaluations": 120, "pending_overlap_pairs": 150, "apdus_attributed": 1200,
                     "replies_matched": 120, "distinct": 4,
                     "slow_request_rounds": 1, "link_fault_rounds": 3,
-                    "device_error_replies_in_fault_rounds": 3},
+                    "device_error_replies_in_fault_rounds": 3,
+                    "state_replies_compared_with_device_state": 30,
+                    "advances_refused_by_device": 10},
           "thorough": {"evaluations": 15000, "pending_overlap_pairs": 100000,
                        "apdus_attributed": 200000, "replies_matched": 15000, "distinct": 300,
                        "slow_request_rounds": 5, "link_fault_rounds": 60,
-                       "device_error_replies_in_fault_rounds": 100}}
+                       "device_error_replies_in_fault_rounds": 100,
+                       "state_replies_compared_with_device_state": 3000,
+                       "advances_refused_by_device": 1000}}
 
 
 def shards(tier, seed):
@@ -80,6 +87,12 @@ def make_requests(rng):
                              "blocks": [b["raw"].hex() for b in blocks],
                              "brothers": [[x["raw"].hex() for x in bl] for bl in bros]}),
         ("state", lambda: {"command": "blockchainState", "version": 5}),
+        ("state", lambda: {"command": "blockchainState", "version": 5}),
+        # three blocks: the simulated device refuses these at the second block
+        # (chaining mismatch), which changes its blockchain state like any other advance
+        ("advance_refused", lambda: {"command": "advanceBlockchain", "version": 5,
+                                     "blocks": [b["raw"].hex() for b in blocks + blocks[:1]],
+                                     "brothers": [[], [], []]}),
         ("heartbeat", lambda: {"command": "signerHeartbeat", "version": 5,
                                "udValue": rng.randbytes(16).hex()}),
         ("pubkey", lambda: {"command": "getPubKey", "version": 5,
@@ -103,12 +116,24 @@ def fresh_device(rng):
     def pubkey(d, apdu):
         return drng.randbytes(65)
 
+    # the device's blockchain state is a function of an epoch that moves on with every
+    # exchange of an advance / ancestor update / reset (as on the real device, only
+    # those commands change it); state requests read the state of the current epoch
+    dev.state_epoch = 0
+    salt = drng.randbytes(8)
+
+    def state_value(epoch, what):
+        import hashlib
+        return hashlib.sha256(salt + b"%d|%d" % (epoch, what)).digest()
+    dev.state_value = state_value
+
     def state(d, apdu):
         if len(apdu) > 3 and apdu[2] == 1:
-            return bytes([0x80, 0x20, 1, apdu[3]]) + drng.randbytes(32)
+            return bytes([0x80, 0x20, 1, apdu[3]]) + state_value(d.state_epoch, apdu[3])
         if len(apdu) > 2 and apdu[2] == 2:
-            return bytes([0x80, 0x20, 2]) + drng.randbytes(20)
+            return bytes([0x80, 0x20, 2]) + state_value(d.state_epoch, 0x100)[:20]
         return None
+    dev.adv_policy = {"reject_if_count": {3: (2, 0x6B87 + 19)}}
 
     def hb(d, apdu):
         if len(apdu) > 2 and apdu[2] == 2 and d.hb.get("ready"):
@@ -173,6 +198,8 @@ def run_round(acc, spec, rnd, rng, slow=None, fault=None):
         delay_rng = random.Random(rng.getrandbits(32))
 
         def hook(bus, apdu):
+            if len(apdu) > 1 and apdu[1] in (0x10, 0x30, 0x21):
+                dev.state_epoch += 1
             if slow and len(apdu) > 1 and apdu[1] == 0x20:
                 time.sleep(slow / 9.0)
             elif fault:
@@ -186,7 +213,7 @@ def run_round(acc, spec, rnd, rng, slow=None, fault=None):
         def wrapped(request):
             rid = request.get("_rid") if isinstance(request, dict) else None
             rec.ctx.rid = rid
-            rec.add("begin", rid=rid)
+            rec.add("begin", rid=rid, epoch=dev.state_epoch)
             try:
                 return orig(request)
             finally:
@@ -302,9 +329,11 @@ def run_round(acc, spec, rnd, rng, slow=None, fault=None):
     cur = None
     order = []
     blocks = {}
+    epochs = {}
     threads_seen = set()
     for e in rec.ev:
         if e["k"] == "begin":
+            epochs[e["rid"]] = e.get("epoch")
             if cur is not None:
                 bad("request-began-inside-another", inside=cur, began=e["rid"])
                 break
@@ -338,6 +367,25 @@ def run_round(acc, spec, rnd, rng, slow=None, fault=None):
             reply = json.loads(data.decode())
         except Exception:
             bad("client-got-unparseable-reply", rid=rid, data=data[:100].decode("latin1"))
+            continue
+        if kind == "advance_refused":
+            acc.count("advances_refused_by_device")
+            if reply.get("errorcode") != -201 and not (fault and reply.get("errorcode") == -905):
+                bad("refused-advance-not-reported", rid=rid, reply=reply)
+            continue
+        if kind == "state" and reply.get("errorcode") == 0 and epochs.get(rid) is not None:
+            # whatever the manager does internally, the reply describes the device as it
+            # is when the request is served (nothing else can change it meanwhile)
+            names = {1: "best_block", 2: "newest_valid_block", 3: "ancestor_block",
+                     5: "ancestor_receipts_root"}
+            acc.count("state_replies_compared_with_device_state")
+            for hid, nm in names.items():
+                if reply.get("state", {}).get(nm) != dev.state_value(epochs[rid], hid).hex():
+                    bad("state-reply-is-not-the-device-state-at-that-time", rid=rid,
+                        field=nm, own_exchanges=len(blocks.get(rid, [])))
+                    break
+            else:
+                acc.count("replies_matched")
             continue
         if fault and reply.get("errorcode") == -905:
             # the faulted request and those that found no device while reconnecting
